@@ -217,6 +217,12 @@ func (prog Progress) focusedTransform(n datamodel.Node, na datamodel.NodeAssembl
 		if err != nil {
 			return err
 		}
+		if n2 == nil {
+			// Removal from a map or list is handled where the map or list is rebuilt.
+			// Here there is nothing to remove the position from: it is the root,
+			// or it sits below parents that had to be created.
+			return fmt.Errorf("transform: the transform function returned no node for %q, which cannot be removed", prog.Path)
+		}
 		return na.AssignNode(n2)
 	}
 	seg, p2 := p.Shift()
